@@ -3,6 +3,7 @@ package props
 import (
 	"fmt"
 	hessian "github.com/vogo/gohessian"
+	"reflect"
 	"strings"
 	"time"
 	"unsafe"
@@ -20,11 +21,23 @@ type BadHolder struct {
 	L   []interface{}
 	M   map[string]interface{}
 	MK  map[interface{}]string
+	MI  map[int32]interface{}
+	MA  map[interface{}]interface{}
 	In  *BadHolder
 	S   string
 	End int32
 }
 
+type BadUintptrField struct {
+	A   int32
+	U   uintptr
+	End int32
+}
+type BadUintptrSlice struct {
+	A   int32
+	L   []uintptr
+	End int32
+}
 type BadChanField struct {
 	A   int32
 	C   chan int
@@ -95,6 +108,10 @@ var badKinds = []struct {
 	{"*struct embedding time.Time first, with a chan field", func() interface{} {
 		return &BadTimeEmbedded{Time: time.Unix(1500000000, 0), C: theChan, End: 2}
 	}, true},
+	{"uintptr", func() interface{} { return uintptr(7) }, true},
+	{"[]uintptr", func() interface{} { return []uintptr{1, 2} }, false},
+	{"struct with a uintptr field", func() interface{} { return BadUintptrField{A: 1, U: 9, End: 2} }, true},
+	{"struct with a []uintptr field", func() interface{} { return &BadUintptrSlice{A: 1, L: []uintptr{3}, End: 2} }, true},
 	{"struct with a nil chan field", func() interface{} { return &BadChanField{A: 1, End: 2} }, true},
 	{"struct with a nil func field", func() interface{} { return BadFuncField{A: 1, End: 2} }, false},
 }
@@ -124,7 +141,7 @@ func secondOf(bad interface{}) interface{} {
 	return bad
 }
 
-var badPositions = []string{"two map keys of the same bad kind", "element 4095 of 5000", "element 4096 of 5000", "element 8191 of 9000", "element 1023 of 1100", "element 65535 of 70000", "element 65536 of 70000", "last element of 70000", "in a self-containing list inside a list", "in a self-containing map inside a list", "top", "field", "list[first]", "list[middle]", "list[last]", "map value", "map key", "nested.field", "nested.nested.field",
+var badPositions = []string{"two map keys of the same bad kind", "value of a map entry with an int key", "value of a map[interface{}]interface{} entry with a non-string key", "element 4095 of 5000", "element 4096 of 5000", "element 8191 of 9000", "element 1023 of 1100", "element 65535 of 70000", "element 65536 of 70000", "last element of 70000", "in a self-containing list inside a list", "in a self-containing map inside a list", "top", "field", "list[first]", "list[middle]", "list[last]", "map value", "map key", "nested.field", "nested.nested.field",
 	"list in list", "map in list", "list in map", "top-level list element", "top-level map value", "nested.list[last]"}
 
 // place builds a value with bad at the given position; ctxChoices fill the surroundings.
@@ -196,6 +213,16 @@ func placeBad(pos string, bad interface{}, ch *explore.Chooser) interface{} {
 		h.L = mkList("last")
 	case "map value":
 		h.M = mkMap()
+	case "value of a map entry with an int key":
+		h.MI = map[int32]interface{}{7: bad}
+		if extraM == 1 {
+			h.MI[8] = "ok"
+		}
+	case "value of a map[interface{}]interface{} entry with a non-string key":
+		h.MA = map[interface{}]interface{}{int64(7): bad}
+		if extraM == 1 {
+			h.MA[true] = "ok"
+		}
 	case "map key":
 		h.MK = map[interface{}]string{bad: "v"}
 	case "two map keys of the same bad kind":
@@ -227,6 +254,34 @@ func pickBytes(first bool, a, b []byte) []byte {
 	return b
 }
 
+// acceptable: kinds that are refused today but that an encoder could legitimately support. A nil chan / func in a
+// typed field may be written if the bytes decode back; a uintptr may be written if the value comes back as
+// itself ("never succeeds with bytes that decode to something else").
+func acceptable(kind string, val interface{}, b []byte) bool {
+	switch {
+	case strings.Contains(kind, " nil "):
+		return decodesBack(val, b)
+	case strings.Contains(kind, "uintptr"):
+		tm, _, p := Maps(val)
+		if p != "" {
+			return false
+		}
+		d := Decode(b, tm)
+		if !d.OK() {
+			return false
+		}
+		a, g := reflect.ValueOf(val), reflect.ValueOf(d.Val)
+		for a.Kind() == reflect.Ptr && !a.IsNil() {
+			a = a.Elem()
+		}
+		for g.IsValid() && g.Kind() == reflect.Ptr && !g.IsNil() {
+			g = g.Elem()
+		}
+		return g.IsValid() && a.Type() == g.Type() && reflect.DeepEqual(a.Interface(), g.Interface())
+	}
+	return false
+}
+
 // decodesBack reports whether the library's own decoder accepts the bytes (with maps extracted from the value).
 func decodesBack(val interface{}, b []byte) bool {
 	tm, _, p := Maps(val)
@@ -240,7 +295,7 @@ func init() {
 	core.Register(&core.Prop{
 		ID: "C13", Level: "model_checking",
 		Rule:        "Exhaustive enumeration (choice explorer) of bad kind (13: channel, function, complex64/128, unsafe.Pointer, slices/maps/structs containing them, directly and nested) x position (15: top level, struct field, first/middle/last list element, map value, map key, one and two nesting levels, containers in containers, top-level containers) x surroundings (other field values, sibling elements and entries, <=k deviations), plus typed struct fields of the bad kinds. Each case is one real ToBytes call. Oracle: it returns, does not panic, and returns a non-nil error; if it returns nil the bytes are parsed by R1 and the discrepancy is recorded. Non-trivial: all cases (each contains an unrepresentable value); distinct by (kind, position, surroundings).",
-		Assumptions: []string{"nil channels/functions in interface slots and uintptr are left out (writing null / a long for them is arguably right); a nil chan / func in a TYPED struct field is refused today, and if an encoder accepts it the bytes must decode back with the library's own decoder", "unhashable bad values are not used as map keys"},
+		Assumptions: []string{"nil channels/functions in interface slots are left out (writing null for them is arguably right); uintptr is refused today, and an encoder that accepts it must produce bytes that decode to the same value; a nil chan / func in a TYPED struct field is refused today, and if an encoder accepts it the bytes must decode back with the library's own decoder", "unhashable bad values are not used as map keys"},
 		Units: func(tier string) []core.Unit {
 			bound := tierPick(tier, 2, 4)
 			var us []core.Unit
@@ -275,7 +330,7 @@ func init() {
 								switch {
 								case enc.Panic != "":
 									c.Report(&core.Violation{Stage: "encode", Kind: "panic", Shape: shape, Message: msgClass(enc.Panic), Case: desc, Choices: ch.Choices()})
-								case enc.Err == nil && strings.Contains(bk.name, " nil ") && decodesBack(val, enc.Bytes):
+								case enc.Err == nil && acceptable(bk.name, val, enc.Bytes):
 									c.Outcome("accepted-and-decodes-back")
 								case enc.Err == nil:
 									det := ""
@@ -305,7 +360,7 @@ func init() {
 									switch {
 									case p != "":
 										c.Report(&core.Violation{Stage: "encode", Kind: "panic", Shape: shape + " " + ename, Message: msgClass(p), Case: desc + " (" + ename + " into a plain io.Writer)", Choices: ch.Choices()})
-									case werr == nil && !(strings.Contains(bk.name, " nil ") && decodesBack(val, gw.Buf)):
+									case werr == nil && !acceptable(bk.name, val, gw.Buf):
 										c.Report(&core.Violation{Stage: "encode", Kind: "success-reported", Shape: shape + " " + ename, Message: ename + " into a plain io.Writer succeeded for a value containing an unrepresentable part", Case: desc, Detail: hexs(gw.Buf), Choices: ch.Choices()})
 									default:
 										c.Outcome("error-streaming")
@@ -327,7 +382,7 @@ func init() {
 									}
 								}); p != "" {
 									c.Report(&core.Violation{Stage: "encode", Kind: "panic", Shape: shape + " reused", Message: msgClass(p), Case: desc + " (encoded repeatedly on one instance)", Choices: ch.Choices()})
-								} else if (e2 == nil || e3 == nil) && !(strings.Contains(bk.name, " nil ") && decodesBack(val, pickBytes(e2 == nil, b2, b3))) {
+								} else if (e2 == nil || e3 == nil) && !acceptable(bk.name, val, pickBytes(e2 == nil, b2, b3)) {
 									c.Report(&core.Violation{Stage: "encode", Kind: "success-reported", Shape: shape + " reused", Message: "a repeated encode of the same unrepresentable value on one Encoder / Serializer succeeded", Case: desc + " (encoded repeatedly on one instance)", Choices: ch.Choices()})
 								} else {
 									c.Outcome("error-when-repeated")
